@@ -90,6 +90,9 @@ impl<T: Read + Seek> PagedReader<T> {
             ))?;
         }
         let offset = page * self.page_size;
+        // The page buffer will be overwritten, so the currently cached page becomes invalid.
+        // This needs to be done first, because a failing read can leave a partially filled buffer.
+        self.page_num = None;
         self.reader.seek(SeekFrom::Start(offset))?;
         self.reader.read_exact(&mut self.page_buffer)?;
         let data_size = self.page_size - CHECKSUM_SIZE;
